@@ -317,12 +317,16 @@ def delete_geff(store: StoreLike, zarr_format: Literal[2, 3] = 2) -> None:
         del root.attrs["geff"]
 
 
-def check_for_geff(store: StoreLike, zarr_format: Literal[2, 3] = 2) -> bool:
+def check_for_geff(store: StoreLike, zarr_format: Literal[2, 3] | None = None) -> bool:
     """Check a StoreLike for an existing geff and return True if already present
+
+    The store is only read, never created or modified, and the zarr format of an
+    existing hierarchy is detected rather than assumed.
 
     Args:
         store (StoreLike): StoreLike to check for a geff
-        zarr_format (Literal[2, 3], optional): Defaults to 2.
+        zarr_format (Literal[2, 3] | None, optional): Ignored, the zarr format of an
+            existing hierarchy is detected. Kept for backwards compatibility.
 
     Returns:
         bool: True if a geff already exists
@@ -333,7 +337,13 @@ def check_for_geff(store: StoreLike, zarr_format: Literal[2, 3] = 2) -> bool:
         exists = os.path.exists(store)
     # If store is already open, check for geff key in metadata
     else:
-        root = setup_zarr_group(store, zarr_format=zarr_format)
+        try:
+            # Read only and without a zarr_format, so that nothing is created and an
+            # existing group is found whichever zarr format it was written with
+            root = zarr.open_group(store, mode="r")
+        except (FileNotFoundError, zarr.errors.GroupNotFoundError):
+            # No zarr group in the store yet
+            return False
         exists = "geff" in root.attrs
 
     return exists
